@@ -61,6 +61,20 @@ type Run struct {
 	samples  []any
 	deadline time.Time
 	Quiet    bool // do not print one line per scenario
+	allSigs  map[string]bool
+}
+
+// SeenSignaturePrefix reports whether any violation (listed or not) whose
+// signature starts with prefix was reported so far.
+func (r *Run) SeenSignaturePrefix(prefix string) bool {
+	r.mu.Lock()
+	defer r.mu.Unlock()
+	for s := range r.allSigs {
+		if strings.HasPrefix(s, prefix) {
+			return true
+		}
+	}
+	return false
 }
 
 // Start parses flags and loads known findings.
@@ -154,6 +168,10 @@ func matchSig(pat, sig string) bool {
 func (r *Run) Report(sig, msg string, replay any) {
 	r.mu.Lock()
 	defer r.mu.Unlock()
+	if r.allSigs == nil {
+		r.allSigs = map[string]bool{}
+	}
+	r.allSigs[sig] = true
 	for _, k := range r.known {
 		if matchSig(k.Signature, sig) {
 			if _, done := r.knownHit[k.Signature]; !done {
